@@ -70,6 +70,7 @@ type Exec struct {
 	entryVars map[string]SV
 	inlineDepth int
 	recordAll bool
+	notes  []string
 	onExit func(st *State) // the process terminates (os.Exit): evaluate the postconditions like at a return
 }
 
@@ -403,8 +404,10 @@ func (e *Exec) propsFor(fr *frame, kind string) []string {
 func (e *Exec) loopHeader(fr *frame, li *loopInfo, b, pred *ssa.BasicBlock, st *State) {
 	name := fmt.Sprintf("%s/loop%d", fnName(fr.fn), li.ordinal)
 	if li.spec == nil {
-		e.errorf("%s: loop %d has no invariant (contract needs 'loop %d invariant ...' or 'loop %d unroll N')", fnName(fr.fn), li.ordinal, li.ordinal, li.ordinal)
-		return
+		// a loop the contract does not know: cut it with the trivial invariant (everything it writes is
+		// havocked); obligations that needed more will fail and name the function
+		e.notes = appendUnique(e.notes, fmt.Sprintf("%s: loop %d has no invariant in the contract; cut with the trivial invariant", fnName(fr.fn), li.ordinal))
+		li.spec = &LoopSpec{}
 	}
 	fromInside := pred != nil && li.body[pred]
 	// bind phis to incoming values for evaluating the invariant
